@@ -127,3 +127,20 @@ Theorem C05_gate_needs_gated_rows :
     o_cond o = OK /\ c_phase c' = Authd [118]%N.
 Proof. exact (conj ungated_row_not_ok ungated_authenticate_runs). Qed.
 Print Assumptions C05_gate_needs_gated_rows.
+
+(* The hypotheses are satisfiable: a concrete session against a scripted
+   backend — LOGIN, EXAMINE INBOX, CLOSE (read-only: OK, no backend call),
+   FETCH (refused: nothing selected any more), LOGOUT. *)
+Example C05_example_session :
+  let cfg := mk_config false true 5 true true None in
+  let u := [117]%N in
+  let s : script :=
+    [("authenticate", AnsIdent u []); ("authorize", AnsIdent u []);
+     ("new_session", AnsOk false false); ("select_mailbox", AnsOk true false)] in
+  let p := [CCmd "LOGIN" (ALogin u [112]%N); CCmd "EXAMINE" (AMailbox b_INBOX);
+            CCmd "CLOSE" ANone; CCmd "FETCH" ANone; CCmd "LOGOUT" ANone] in
+  let '(c, rest, outs) := run script script_bk cmd_table cfg s p in
+  c_phase c = Closed /\ rest = [] /\
+  map o_cond outs = [OK; OK; OK; OK; BAD; OK] /\
+  map o_why outs = [WDone; WDone; WDone; WDone; WMustSelect; WLogout].
+Proof. vm_compute. auto. Qed.
